@@ -110,10 +110,18 @@ def corruptions():
         return recs
 
     def corrupt_mask(recs, rng):
-        i = pick(recs, rng, lambda r: r['e'] == 'Forward' and r['p']['k'] == 'w' and r['p']['m'])
+        i = pick(recs, rng, lambda r: r['e'] == 'Forward' and r['p']['k'] == 'w' and r['p']['m'] and r['p']['m'] != [-1])
         if i is None:
             return None
         recs[i]['p']['m'][0] ^= 1
+        return recs
+
+    def nil_mask_all_false(recs, rng):
+        """A write without a mask (all bytes written) goes down with an all-false mask (writes nothing)."""
+        i = pick(recs, rng, lambda r: r['e'] == 'Forward' and r['p']['k'] == 'w' and r['p']['m'] == [-1] and r['p']['d'])
+        if i is None:
+            return None
+        recs[i]['p']['m'] = [0] * len(recs[i]['p']['d'])
         return recs
 
     def wrong_requester(recs, rng):
@@ -150,6 +158,7 @@ def corruptions():
             ('duplicate_forward', dup_forward), ('drop_response', drop_response),
             ('duplicate_response', dup_response), ('swap_response_ids', swap_response_ids),
             ('corrupt_returned_data', corrupt_returned_data), ('corrupt_byte_mask', corrupt_mask),
+            ('nil_mask_becomes_all_false', nil_mask_all_false),
             ('response_to_wrong_requester', wrong_requester), ('lookup_wrong_pid', lookup_wrong_pid),
             ('coalesce_across_pids', cross_pid_coalesce)]
 
@@ -187,6 +196,8 @@ def features(recs):
                 f.add('reply_dropped_unknown')      # reply nobody waits for (flush, or drained after a failed send)
         if e == 'Forward':
             bot_out += 1
+        if e == 'EnvReq' and r['p']['k'] == 'w' and r['p']['m'] == [-1]:
+            f.add('write_without_mask')
         if e == 'EnvTakeDown':
             bot_out -= 1
         if e == 'EnvCtrl':
@@ -288,7 +299,7 @@ def run(ctx, selftest=False):
             feat[x] = feat.get(x, 0) + 1
     ctx.log('trace features (number of traces showing each): %s' % feat)
     # environment-driven patterns must have occurred (else the drivers are broken: infrastructure error)
-    for need in ('tlb_out_of_order', 'flush', 'same_page_other_pid_pending', 'reply_met_full_bottom'):
+    for need in ('tlb_out_of_order', 'flush', 'same_page_other_pid_pending', 'reply_met_full_bottom', 'write_without_mask'):
         if not feat.get(need):
             raise vlib.Infra('coverage: no trace exercised %r' % need)
     # coalescing is the implementation's choice (the spec also accepts a translator that never coalesces)
@@ -302,6 +313,7 @@ def run(ctx, selftest=False):
     cs = corruptions()
     if not thorough:
         keep = ('forward_wrong_offset', 'duplicate_forward', 'drop_response', 'swap_response_ids', 'corrupt_byte_mask',
+                'nil_mask_becomes_all_false',
                 'coalesce_across_pids')
         cs = [c for c in cs if c[0] in keep]
     common.selftest_binding(ctx, TSPEC, t2, cs)
